@@ -319,8 +319,10 @@ class CSSStyleDeclaration(CSS2Properties, cssutils.util.Base2):
 
         def unexpected(expected, seq, token, tokenizer=None):
             # error, find next ; or } to omit upto next property
-            ignored = self._tokenvalue(token) + self._valuestr(
-                self._tokensupto2(tokenizer, propertyvalueendonly=True)
+            ignored = self._valuestr(
+                self._tokensupto2(
+                    tokenizer, starttoken=token, propertyvalueendonly=True
+                )
             )
             self._log.error(
                 'CSSStyleDeclaration: Unexpected token, ignoring upto %r.' % ignored,
